@@ -11,12 +11,17 @@
 //!           | r:<ctr>:<ack|->:<rel>            post_recv
 //!   E <id> m=<n> ab=<acts> ba=<acts> others=<k>:<n>    two real nodes, scripted network
 //!        acts = '.'-separated per-datagram actions: d | x | u | h<n>  (default d)
+//!   W <id> <E fields> [slow=<ms>] [oat=<ms>] [evict=<ms>]   the same with disturbances the model has
+//!        no notion of (monitor only): every send of A takes <slow> ms (the single TX buffer stays
+//!        taken that long), the other exchange starts <oat> ms after the first transmission, and
+//!        <evict> ms after it an UNRELATED session of A is evicted through the real path (table
+//!        full, a stranger's first handshake message arrives)
 use core::num::NonZeroU8;
 use std::cell::RefCell;
 use std::fmt::Write as _;
 use std::io::Write as _;
 
-use embassy_futures::select::{select, select3, Either, Either3};
+use embassy_futures::select::{select3, Either3};
 use embassy_time::{Duration, Timer};
 
 use rs_matter::crypto::test_only_crypto;
@@ -24,8 +29,9 @@ use rs_matter::error::{Error, ErrorCode};
 use rs_matter::respond::{ExchangeHandler, Responder};
 use rs_matter::transport::exchange::{Exchange, MessageMeta};
 use rs_matter::transport::mrp::{ReliableMessage, RetransEntry};
-use rs_matter::transport::network::NoNetwork;
+use rs_matter::transport::network::{Address, NetworkSend, NoNetwork};
 use rs_matter::transport::packet::PacketHdr;
+use rs_matter::utils::storage::WriteBuf;
 use rs_matter::utils::select::Coalesce;
 
 use rsm_harness::e2e::{self, Action, Net};
@@ -165,6 +171,45 @@ struct ECase {
     ba: Vec<Action>,
     others_after: usize,
     others_n: u32,
+    slow_ms: u64,
+    others_at_ms: Option<u64>,
+    evict_at_ms: Option<u64>,
+}
+
+/// a link on which every send takes `ms` (a slow radio): the TX buffer stays taken that long
+struct SlowSend<S> {
+    inner: S,
+    ms: u64,
+}
+
+impl<S: NetworkSend> NetworkSend for SlowSend<S> {
+    async fn send_to(&mut self, data: &[u8], addr: Address) -> Result<(), Error> {
+        if self.ms > 0 {
+            Timer::after(Duration::from_millis(self.ms)).await;
+        }
+        self.inner.send_to(data, addr).await
+    }
+}
+
+const STRANGER: u16 = 9;
+
+/// the first handshake message of a stranger (unsecured session, new exchange)
+fn stranger_datagram() -> Vec<u8> {
+    let crypto = test_only_crypto();
+    let mut hdr = PacketHdr::new();
+    hdr.plain.sess_id = 0;
+    hdr.plain.ctr = 0x0123_4567;
+    hdr.plain.set_src_nodeid(Some(0x9999));
+    hdr.proto.exch_id = 77;
+    hdr.proto.set_initiator();
+    hdr.proto.set_reliable();
+    hdr.proto.proto_id = 0;
+    hdr.proto.proto_opcode = 0x20;
+    let mut buf = [0u8; 256];
+    let mut wb = WriteBuf::new_with(&mut buf, PacketHdr::HDR_RESERVE, PacketHdr::HDR_RESERVE);
+    wb.append(&[0x15, 0x30, 0x01, 0x00, 0x18]).unwrap();
+    hdr.encode(&crypto, None, 0, &mut wb).unwrap();
+    wb.as_slice().to_vec()
 }
 
 fn parse_e(f: &[&str]) -> ECase {
@@ -175,6 +220,9 @@ fn parse_e(f: &[&str]) -> ECase {
         ba: vec![],
         others_after: 0,
         others_n: 0,
+        slow_ms: 0,
+        others_at_ms: None,
+        evict_at_ms: None,
     };
     for kv in &f[2..] {
         let (k, v) = kv.split_once('=').unwrap();
@@ -183,6 +231,9 @@ fn parse_e(f: &[&str]) -> ECase {
             "sess" => c.pase = v == "pase",
             "ab" => c.ab = parse_acts(v),
             "ba" => c.ba = parse_acts(v),
+            "slow" => c.slow_ms = v.parse().unwrap(),
+            "oat" => c.others_at_ms = Some(v.parse().unwrap()),
+            "evict" => c.evict_at_ms = Some(v.parse().unwrap()),
             "others" => {
                 let (a, b) = v.split_once(':').unwrap();
                 c.others_after = a.parse().unwrap();
@@ -219,8 +270,21 @@ fn run_e(case: &ECase) -> String {
     };
     let a_sess = e2e::preset_session(&matter_a, &crypto, A_NODE, B_NODE, 1, 2, e2e::node_addr(B), mode()).unwrap();
     e2e::preset_session(&matter_b, &crypto, B_NODE, A_NODE, 2, 1, e2e::node_addr(A), mode()).unwrap();
+    if case.evict_at_ms.is_some() {
+        // fill A's session table with idle sessions to other peers: the stranger's message then
+        // finds no free slot and the transport evicts one of them
+        let mut k = 0u16;
+        while e2e::preset_session(&matter_a, &crypto, A_NODE, 0x3000 + k as u64, 100 + k, 200 + k, e2e::node_addr(50 + k), mode()).is_ok() {
+            k += 1;
+            if k > 64 {
+                break;
+            }
+        }
+    }
     let (a_tx, a_rx) = net.attach(A);
+    let a_tx = SlowSend { inner: a_tx, ms: case.slow_ms };
     let (b_tx, b_rx) = net.attach(B);
+    let _stranger = net.attach(STRANGER);
     let blog = BLog::default();
     let results: RefCell<Vec<String>> = RefCell::new(Vec::new());
     let marks: RefCell<Vec<usize>> = RefCell::new(Vec::new());
@@ -236,6 +300,10 @@ fn run_e(case: &ECase) -> String {
     let net2 = net.clone();
     let others_after = case.others_after;
     let others_n = case.others_n;
+    let others_at_ms = case.others_at_ms;
+    let evict_at_ms = case.evict_at_ms;
+    let net4 = net.clone();
+    let started: RefCell<Option<embassy_time::Instant>> = RefCell::new(None);
 
     let outcome = e2e::block_on(async {
         let device = embassy_futures::select::select4(
@@ -254,6 +322,7 @@ fn run_e(case: &ECase) -> String {
                 payload[1..5].copy_from_slice(&m.to_le_bytes());
                 if m == 0 {
                     marks.borrow_mut().push(0);
+                    *started.borrow_mut() = Some(embassy_time::Instant::now());
                 }
                 let r = ex.send(MessageMeta::new(PROTO, 1, true), &payload).await;
                 marks.borrow_mut().push(count_main());
@@ -275,12 +344,22 @@ fn run_e(case: &ECase) -> String {
             if others_n == 0 {
                 return core::future::pending::<Result<(), Error>>().await;
             }
-            loop {
-                let sent = net2.tap().iter().filter(|t| t.src == A).count();
-                if sent >= others_after {
-                    break;
+            if let Some(at) = others_at_ms {
+                loop {
+                    if let Some(t0) = *started.borrow() {
+                        Timer::at(t0 + Duration::from_millis(at)).await;
+                        break;
+                    }
+                    Timer::after(Duration::from_millis(1)).await;
                 }
-                Timer::after(Duration::from_millis(1)).await;
+            } else {
+                loop {
+                    let sent = net2.tap().iter().filter(|t| t.src == A).count();
+                    if sent >= others_after {
+                        break;
+                    }
+                    Timer::after(Duration::from_millis(1)).await;
+                }
             }
             let mut ex = Exchange::initiate_for_session(&matter_a, &crypto, a_sess)?;
             for i in 0..others_n {
@@ -292,10 +371,26 @@ fn run_e(case: &ECase) -> String {
             core::future::pending::<Result<(), Error>>().await
         };
 
+        let evict_flow = async {
+            let Some(at) = evict_at_ms else {
+                return core::future::pending::<Result<(), Error>>().await;
+            };
+            loop {
+                if let Some(t0) = *started.borrow() {
+                    Timer::at(t0 + Duration::from_millis(at)).await;
+                    break;
+                }
+                Timer::after(Duration::from_millis(1)).await;
+            }
+            net4.inject(STRANGER, A, &stranger_datagram());
+            core::future::pending::<Result<(), Error>>().await
+        };
+
         let flows = async {
-            match select(core::pin::pin!(main_flow), core::pin::pin!(other_flow)).await {
-                Either::First(r) => r,
-                Either::Second(r) => r,
+            match select3(core::pin::pin!(main_flow), core::pin::pin!(other_flow), core::pin::pin!(evict_flow)).await {
+                Either3::First(r) => r,
+                Either3::Second(r) => r,
+                Either3::Third(r) => r,
             }
         };
 
@@ -322,6 +417,8 @@ fn run_e(case: &ECase) -> String {
         .map(|(_, id)| id.to_string())
         .collect();
     let others_delivered = blog.0.borrow().iter().filter(|(k, _)| *k == 2).count();
+    // sessions left on A (the eviction took effect iff one of the idle ones is gone)
+    let a_sessions = matter_a.with_state(|st| st.verif_sessions().iter().count());
     // observations for the monitor (not compared with the model): the times (us) of the
     // transmissions of each main message (main datagrams are recognised by their size)
     let main_len = tap
@@ -351,7 +448,7 @@ fn run_e(case: &ECase) -> String {
         .filter(|(s, _, l)| *s == A && *l == main_len)
         .count();
     format!(
-        "{} res={} delivered={} acks={} | others={} base={} copies={} tx={}",
+        "{} res={} delivered={} acks={} | others={} base={} copies={} asess={} tx={}",
         outcome,
         results.borrow().join("."),
         delivered.join("."),
@@ -359,6 +456,7 @@ fn run_e(case: &ECase) -> String {
         others_delivered,
         SAI_MS,
         copies,
+        a_sessions,
         per_msg.join(";")
     )
 }
@@ -385,9 +483,9 @@ fn run_line(line: &str, out: &mut String) {
         "R" => {
             writeln!(out, "R {} {}", f[1], run_r(f[2])).unwrap();
         }
-        "E" => {
+        "E" | "W" => {
             let c = parse_e(&f);
-            writeln!(out, "E {} {}", f[1], run_e(&c)).unwrap();
+            writeln!(out, "{} {} {}", f[0], f[1], run_e(&c)).unwrap();
         }
         _ => {}
     }
@@ -548,6 +646,30 @@ fn generate(tier: &str, seed: u64) -> Vec<String> {
         // (first copy lost) so that the datagram indices do not depend on that race
         let ab = if others.1 > 0 { format!("x.{}", ab) } else { ab };
         e(m, ab, ba, others);
+    }
+    // W: disturbances outside the model (monitor only; timing chosen against the 96 ms first back-off)
+    // (a) first copy lost; while the sender sits in its back-off an UNRELATED session of the node is
+    //     evicted (table full, a stranger's first handshake message): the back-off must run its course
+    for (at, extra) in [(15u64, ""), (40, ""), (70, ""), (30, " sess=pase"), (60, " sess=pase")] {
+        cases.push(format!("W {} m=2 ab=x ba= others=0:0 evict={}{}", nid(), at, extra));
+    }
+    cases.push(format!("W {} m=1 ab=x.x.x ba= others=0:0 evict=25", nid()));
+    // (b) a slow link: every send of A keeps the single TX buffer for <slow> ms; another exchange's
+    //     message holds the buffer when the back-off expires, and the acknowledgement arrives while the
+    //     sender waits for the buffer: the acknowledged message must not be sent again
+    //     timeline (first back-off = 96 ms): the copy leaves the buffer at <slow> (< 96), the other
+    //     exchange takes the buffer at <oat> = slow + 8 and holds it until oat + slow (> 96), the
+    //     acknowledgement is delayed to arrive between 96 and oat + slow
+    let slows: &[u64] = if thorough { &[40, 50, 55, 60, 65, 70, 80] } else { &[50, 60, 70] };
+    for &slow in slows {
+        let oat = slow + 8;
+        let lo = 96 - slow;
+        let hi = oat; // arrival = slow + delay must stay below oat + slow
+        for delay in [(lo + hi) / 2, lo + 6, hi - 6] {
+            for m in [1u32, 2] {
+                cases.push(format!("W {} m={} ab= ba=t{} others=0:1 slow={} oat={}", nid(), m, delay, slow, oat));
+            }
+        }
     }
     cases
 }
